@@ -3,7 +3,7 @@ from ..model import AnalysisError
 from ..terms import SELF, FAC, show, is_const
 from ..catalogue import catalogue, is_effect
 from .common import (SPEC_TYPES, pdu_class_name, where, net_body_paths, after, flat, exc_class, written_object,
-                     types, capabilities, cls_short)
+                     types, capabilities, cls_short, short, contexts)
 
 EXPLANATION = (
     "Dispatch matrix protocol class x state slot x operation, read off the resolved program: the state table is "
@@ -12,7 +12,10 @@ EXPLANATION = (
     "'refuse' (no effect event at all; API calls return defer.fail(MQTTStateError) / raise MQTTStateError) or "
     "'honour' (the effect signature of that very operation). The expected table is the one in the property "
     "statement; capabilities of a class come from the profile constant the factory builds it for. Decides the "
-    "table, for all paths of every cell at once; does not run any history.")
+    "table, for all paths of every cell at once; does not run any history. M-LOSS-IDLE: every path through "
+    "connectionLost ends with state = IDLE, and no exception can leave it before that assignment - raises seen by the "
+    "walk, cancel() of a handle that already fired, a method call on a None handle, errback() of a Deferred created "
+    "already fired (typestate facts computed over all contexts).")
 ASSUMPTIONS = ["the state object in self.state is always one of the slot objects (checked: only self.<SLOT> is ever assigned)"]
 
 API_OPS = ["connect", "disconnect", "publish", "subscribe", "unsubscribe"]
@@ -330,11 +333,46 @@ def check(ctx):
         for p in loss.paths:
             st = [e for e in p.events if e.kind == "STATE"]
             if p.exit_kind() == "raise":
+                ctx.ob("M-LOSS-IDLE", "%s connectionLost raises only after the state is IDLE" % cls_short(cls.qual),
+                       bool(st) and st[-1].a["slot"] == "IDLE", where="%s:%d" % (loss.func.file, loss.func.node.lineno),
+                       function=loss.func.qual, construct=cls.qual + "/connectionLost/raises-before-idle", nontrivial=False,
+                       msg="an exception leaves connectionLost before the state is reset: the protocol stays %s on a dead transport"
+                           % (st[-1].a["slot"] if st else "in its previous state"))
                 continue
             ctx.ob("M-LOSS-IDLE", "%s connectionLost ends in IDLE" % cls_short(cls.qual),
                    bool(st) and st[-1].a["slot"] == "IDLE", where="%s:%d" % (loss.func.file, loss.func.node.lineno),
                    function=loss.func.qual, construct=cls.qual + "/connectionLost/state", nontrivial=False,
                    msg="a path through connectionLost does not leave the protocol in IDLE")
+    # exceptions the path walk does not raise by itself: cancel() of a fired handle, a method call on a None handle and
+    # errback() of a Deferred that was created already fired - each skips the state reset at the end of connectionLost
+    from ..handles import handles
+    from .flows import prefired_fires
+    for cls in a.protos:
+        cat = catalogue(a, cls)
+        hd = handles(a, cls)
+        hazards = []
+        for ent, p, loc, tr, e in hd.fired_handles():
+            if tr.kind == "LOSS":
+                hazards.append((e, "fired-handle/%s" % ".".join(loc), "%s leaves its fired handle in %s and connectionLost cancels it (AlreadyCalled)"
+                                % (short(ent.func.qual), ".".join(loc))))
+                break
+        for tr, e, loc, why in hd.none_deref():
+            if tr.kind == "LOSS":
+                hazards.append((e, "none-handle/%s" % ".".join(loc), why))
+        for tr, f, rg, (tr0, st0, rg0) in prefired_fires(cat):
+            if tr.kind == "LOSS":
+                hazards.append((f, "prefired/%s" % rg, "errback() of a request taken from %s without testing .called: %s stores an already "
+                                "fired Deferred there (%s), AlreadyCalledError" % (rg, tr0.label(), where(st0))))
+        for e, what, why in hazards:
+            idle_before = False
+            for tr in contexts(cat):
+                if tr.kind == "LOSS":
+                    evs = list(tr.path.walk())
+                    if e in evs and any(x.kind == "STATE" and x.a["slot"] == "IDLE" for x in evs[:evs.index(e)]):
+                        idle_before = True
+            ctx.ob("M-LOSS-IDLE", "%s connectionLost reaches the state reset (%s)" % (cls_short(cls.qual), what), idle_before, where=where(e),
+                   function=e.func, construct="%s/connectionLost/%s" % (cls.qual, what),
+                   msg="%s: the exception leaves connectionLost before self.state = IDLE, the protocol stays CONNECTED on a dead transport" % why)
     ctx.count("matrix_cells", cells)
     ctx.count("protocol_classes", len(a.protos))
     ctx.count("state_classes", len({c.qual for cls in a.protos for c in a.engine(cls).state_slots.values()}))
